@@ -21,7 +21,7 @@ __CPROVER_ensures(self->crc_ == SPEC_CRC_SHIFT(__CPROVER_old(self->crc_) ^ (bitv
 static void CRC16Base_update(struct CRC16Base *self, const uint8_t *start, const uint8_t *end)
 __CPROVER_requires(__CPROVER_is_fresh(self, sizeof(*self)) && self->crc_ == h_crc_pref[0])
 __CPROVER_requires(start == h_crc_data && end >= start && end <= h_crc_data + CRC_MAXLEN)
-__CPROVER_assigns(self->crc_)
+__CPROVER_assigns(self->crc_, __CPROVER_object_whole(h_inner))
 __CPROVER_ensures(self->crc_ == h_crc_pref[end - start]);
 
 static byte reverse_bit_order(byte in)
@@ -29,7 +29,7 @@ __CPROVER_assigns()
 __CPROVER_ensures(((__CPROVER_return_value >> g_bit) & 1) == ((in >> (7 - g_bit)) & 1));
 
 #define BS_OK(bs) (__CPROVER_is_fresh(bs, sizeof(struct BitStream)) && (bs)->input_ == h_track && (bs)->raw_bit_size_ <= 8 * TRACK_BYTES && \
-                   (bs)->raw_bit_size_ % 8 == 0 && (bs)->stride_ >= 1 && (bs)->stride_ <= 2 && (bs)->first_ <= 1)
+                   (bs)->raw_bit_size_ % 8 == 0 && (bs)->stride_ == VERIF_STRIDE && (bs)->first_ <= 1)   /* stride 1 (HxC MFM) or 2 (HFE side interleave): one job each */
 static size_t BitStream_raw_pos(const struct BitStream *self, size_t bitpos)
 __CPROVER_requires(BS_OK(self) && bitpos <= (1ul << 32)) __CPROVER_assigns()
 __CPROVER_ensures(__CPROVER_return_value == bitpos * self->stride_ + self->first_);
@@ -44,7 +44,7 @@ __CPROVER_requires(BS_OK(self) && self->first_ <= self->raw_bit_size_) __CPROVER
 __CPROVER_ensures(__CPROVER_return_value == (self->raw_bit_size_ - self->first_) / self->stride_);
 
 static bool BitStream_getbit(const struct BitStream *self, size_t bitpos)
-__CPROVER_requires(BS_OK(self) && bitpos * self->stride_ + self->first_ < self->raw_bit_size_) __CPROVER_assigns()
+__CPROVER_requires(BS_OK(self) && bitpos <= (1ul << 32) && bitpos * self->stride_ + self->first_ < self->raw_bit_size_) __CPROVER_assigns()
 __CPROVER_ensures(__CPROVER_return_value == (((h_track[(bitpos * self->stride_ + self->first_) / 8] >> ((bitpos * self->stride_ + self->first_) % 8)) & 1) != 0));
 
 /* MFM: 16 cells c7 d7 ... c0 d0; a byte is delivered only if EVERY clock bit obeys the MFM rule
